@@ -208,6 +208,8 @@ fn sequential_sweep(v: &Verdicts, rng: &mut Rng, thorough: bool, secondary: bool
 #[derive(Clone, Debug)]
 pub enum COp {
     Set(String),
+    /// a value that is not a number (an increment that meets it must be refused and change nothing)
+    SetText(String),
     /// absolute version
     SetSafeAbs(String, i32),
     /// version from this client's last get-safe of the key
@@ -228,7 +230,9 @@ pub struct DoneOp {
     pub ret: usize,
 }
 
-fn gen_mix(r: &mut Rng) -> (Vec<Vec<COp>>, Vec<(String, Option<i32>)>) {
+/// `flavor` 0: C02's mix. 1: C01's mix - text and numeric sets, increments, reads and removes of one or two keys (an
+/// increment refused because of a text value must leave it alone whatever else runs at that moment).
+fn gen_mix(r: &mut Rng, flavor: u8) -> (Vec<Vec<COp>>, Vec<(String, Option<i32>)>) {
     let nkeys = r.range(1, 2);
     let keys: Vec<String> = (0..nkeys).map(|i| format!("k{}", i)).collect();
     // initial state per key: absent, or set n times (version n-1)
@@ -240,13 +244,24 @@ fn gen_mix(r: &mut Rng) -> (Vec<Vec<COp>>, Vec<(String, Option<i32>)>) {
         let mut ops = vec![];
         for _ in 0..nops {
             let k = r.pick(&keys).clone();
-            let op = match r.below(12) {
+            let op = if flavor == 1 {
+                match r.below(12) {
+                    0..=2 => COp::SetText(k),
+                    3..=4 => COp::Set(k),
+                    5..=8 => COp::Inc(k, *r.pick(&[1i32, 2, 3, 1, 2, 0, -1])),
+                    9..=10 => COp::GetSafe(k),
+                    _ => COp::Remove(k),
+                }
+            } else {
+              match r.below(13) {
+                12 => COp::SetText(k),
                 0..=1 => COp::Set(k),
                 2..=3 => COp::SetSafeAbs(k, r.below(5) as i32),
                 4..=5 => COp::Cas(k),
                 6..=8 => COp::Inc(k, *r.pick(&[1i32, 2, 3, 1, 2, 0])),
                 9..=10 => COp::GetSafe(k),
                 _ => COp::Remove(k),
+              }
             };
             if let COp::Cas(k) = &op {
                 ops.push(COp::GetSafe(k.clone()));
@@ -290,6 +305,7 @@ fn run_mix(node: &Node, db: &str, clients: &[Vec<COp>], rng: &mut Rng, policy: P
                     sched::yield_point(sc, tid, "op");
                     let line = match op {
                         COp::Set(k) => format!("set {} {}", k, 1000 + base + (ci * 10 + i) as u64),
+                        COp::SetText(k) => format!("set {} t{}", k, 1000 + base + (ci * 10 + i) as u64),
                         COp::SetSafeAbs(k, v) => format!("set-safe {} {} {}", k, v, 1000 + base + (ci * 10 + i) as u64),
                         COp::Cas(k) => format!("set-safe {} {} {}", k, last_ver.get(k).cloned().unwrap_or(0).max(0), 1000 + base + (ci * 10 + i) as u64),
                         COp::Inc(k, n) => format!("increment {} {}", k, n),
@@ -448,7 +464,13 @@ pub struct CtlStats {
     pub outcome_classes: BTreeSet<String>,
 }
 
-fn controlled(v: &Verdicts, seed0: u64, mixes: usize, per_mix: usize, pct: bool, stats: &std::sync::Mutex<CtlStats>) {
+impl CtlStats {
+    pub fn new() -> CtlStats {
+        CtlStats { schedules: 0, distinct_overlapping: BTreeSet::new(), distinct: BTreeSet::new(), ops: 0, spec_runs: 0, stuck: 0, undecided: 0, samples: vec![], outcome_classes: BTreeSet::new() }
+    }
+}
+
+pub fn controlled(v: &Verdicts, seed0: u64, mixes: usize, per_mix: usize, pct: bool, stats: &std::sync::Mutex<CtlStats>, flavor: u8) {
     let next = std::sync::atomic::AtomicUsize::new(0);
     std::thread::scope(|sc| {
         for _w in 0..workers() {
@@ -464,7 +486,7 @@ fn controlled(v: &Verdicts, seed0: u64, mixes: usize, per_mix: usize, pct: bool,
                         break;
                     }
                     let mut rng = Rng::new(seed0.wrapping_mul(1_000_003).wrapping_add(m as u64));
-                    let (clients, init) = gen_mix(&mut rng);
+                    let (clients, init) = gen_mix(&mut rng, flavor);
                     for sidx in 0..per_mix {
                         dbn += 1;
                         if dbn % 1500 == 0 {
@@ -714,14 +736,19 @@ pub fn run(tier: &str) -> i32 {
     });
     let (mixes, per_mix) = if thorough { (2400, 80) } else { (240, 40) };
     sched::install_callback_inner();
-    controlled(&v, seed(), mixes, per_mix, true, &stats);
+    controlled(&v, seed(), mixes, per_mix, true, &stats, 0);
     let (cas_rounds, inc_rounds, contended) = stress(&v, if thorough { 6000 } else { 600 }, seed(), false);
     let (cas_rounds2, _, contended2) = stress(&v, if thorough { 2000 } else { 200 }, seed() ^ 0x5ec, true);
     let (cas_rounds, contended) = (cas_rounds + cas_rounds2, contended + contended2);
+    // no acknowledged write is lost to the snapshot thread either: sessions writing, removing and re-creating their keys
+    // while incremental and space-reclaiming snapshots of the database are written (the part C06 owns; here only its
+    // in-memory verdict matters: after the writers stopped, every key holds its writer's last acknowledged command)
+    let (race_rounds, race_overlapped) = crate::c06::snapshot_race(&v, if thorough { 60 } else { 6 });
+    ev.set("writers_racing_the_snapshot_thread", json!({"rounds": race_rounds, "rounds_with_at_least_3_snapshots_completed_while_the_writers_ran": race_overlapped}));
     let st = stats.into_inner().unwrap();
     ev.evaluations = st.schedules + seq_n + cas_rounds + inc_rounds;
     ev.distinct_nontrivial = st.distinct_overlapping.len() as u64;
-    ev.rule = format!("{} op mixes (2-3 clients x 1-4 ops of set/set-safe/CAS-from-own-read/increment/get-safe/remove on 1-2 keys, initial key absent or at version 0/1/3) x {} seeded schedules each (uniform random and PCT d=3 token passing at the hook points before every Database.map / Watchers.map acquisition); distinct = hash of the (thread,site,call,return) sequence; non-trivial = distinct schedules in which two clients' operations on the same key overlap", mixes, per_mix);
+    ev.rule = format!("{} op mixes (2-3 clients x 1-4 ops of set (numbers, now and then a text)/set-safe/CAS-from-own-read/increment/get-safe/remove on 1-2 keys, initial key absent or at version 0/1/3) x {} seeded schedules each (uniform random and PCT d=3 token passing at the hook points before every Database.map / Watchers.map acquisition); distinct = hash of the (thread,site,call,return) sequence; non-trivial = distinct schedules in which two clients' operations on the same key overlap", mixes, per_mix);
     ev.samples = st.samples.clone();
     ev.set("schedules_run", json!(st.schedules));
     ev.set("distinct_schedules", json!(st.distinct.len()));
